@@ -8,7 +8,7 @@
       timestamps of entries that are not in the zero queue. *)
 From Coq Require Import List Arith NArith PArith Lia Bool Sorting.Sorted Permutation ZifyBool.
 From DesVerif Require Import Common.Fuel Common.Codec CQueue.Model CQueue.Spec CQueue.ListX CQueue.SpecProps
-  Runtime.Limit Runtime.Model Runtime.Queue Runtime.Inv Runtime.HeapSet Runtime.Generic Runtime.GenericProps Runtime.HeapRt.
+  Runtime.Limit Runtime.Model Runtime.Queue Runtime.Inv Runtime.HeapSet Runtime.Generic Runtime.EvSet Runtime.GenericProps Runtime.HeapRt.
 Import ListNotations.
 Open Scope N_scope.
 
@@ -126,27 +126,28 @@ Lemma heap_fetch' h t pick : HI h -> hp_peek h = Some t ->
                Permutation (hpend h) ((t, l) :: hpend h').
 Proof. intros H1 H2. destruct (heap_fetch h t pick H1 H2) as [h' [l [A [B [C [D [E _]]]]]]]. exists h', l. split; [exact A|]. split; [exact B|]. split; [exact C|]. split; [exact D|exact E]. Qed.
 
+(* the BinaryHeap backend as an event set in the sense of Runtime/EvSet.v *)
+Definition heap_evset : evset :=
+  {| eQ := hs; eHint := hint; e_new := hp_new; e_add := hp_add; e_peek := hp_peek; e_fetch := hp_fetch; e_len := hp_len;
+     eI := HI; e_clock := hlast; e_pend := hpend;
+     e_new_ok := heap_new; e_add_lt := heap_add_lt; e_add_ge := heap_add_ge; e_len_ok := heap_len;
+     e_peek_none := heap_peek_none; e_fetch_ok := heap_fetch' |}.
+
 (* the runtime over the heap backend, any oracle: every loop terminates; the
    booted, every paused and the final state satisfy the clauses of C02 *)
-Definition hgood (orc : N -> hint) : N -> hrt -> Prop := ggood hs hint hp_add hp_fetch hp_len orc hlast.
+Definition hgood (orc : N -> hint) : N -> hrt -> Prop := ggood heap_evset orc.
 
 Theorem heap_runtime_good (orc : N -> hint) S B L pre P ops :
   exists s1 xs sf,
     hexec_sched orc P (hboot S B L pre) ops = (Some s1, xs) /\ ~ In OFuel xs /\ hdispatch_all orc P s1 = Some sf /\
     hgood orc S (hboot S B L pre) /\ hgood orc S s1 /\ hgood orc S sf.
-Proof.
-  apply (grun_good hs hint hp_new hp_add hp_peek hp_fetch hp_len orc HI hlast hpend
-           heap_new heap_add_lt heap_add_ge heap_len heap_peek_none heap_fetch').
-Qed.
+Proof. apply (grun_good heap_evset orc). Qed.
 
 Theorem heap_dispatch_now (orc : N -> hint) S B L pre P ops s1 xs s' :
   hexec_sched orc P (hboot S B L pre) ops = (Some s1, xs) ->
   gdispatch_event hs hint hp_add hp_peek hp_fetch orc P s1 = inl s' ->
   exists t l, In (t, l) (hpend (gfes hs s1)) /\ gclock hs s1 <= t /\ gclock hs s' = t /\ glog hs s' = glog hs s1 ++ [(l, t)].
-Proof.
-  apply (gdispatch_now hs hint hp_new hp_add hp_peek hp_fetch hp_len orc HI hlast hpend
-           heap_new heap_add_lt heap_add_ge heap_len heap_fetch').
-Qed.
+Proof. apply (gdispatch_now heap_evset orc). Qed.
 
 (* ---- B. operation histories ---- *)
 Definition adds_of (o : op) (x : out) : list (N * N) :=
